@@ -50,6 +50,13 @@ type Trace struct {
 	// the first accepted block move - an index built on first use must not
 	// assume the initial block order
 	LateLookups bool `json:"late_lookups,omitempty"`
+	// Shuffle != 0: the instruction list is handed to deps.NewCode in a
+	// pseudo-random order derived from it (NewCode sorts by address itself)
+	Shuffle uint64 `json:"shuffle,omitempty"`
+	// Layered: the emulated machine's memories are the tool's layering (an
+	// empty read-only byte memory under a writable sparse layer) instead of
+	// bare sparse memories
+	Layered bool `json:"layered,omitempty"`
 }
 
 func (t *Trace) Len() int { return len(t.Ops) }
